@@ -379,12 +379,49 @@ Section Writer.
       end
     end.
 
+  (* SetInput(data, kSizeMax); while (writer.AvailInput()) { EnsureOutput(writer, to); writer.Process(); } *)
+  Fixpoint gzc_feed (fuel : nat) (est : estate) (inp out : list Z) (size : N)
+    : option (option (estate * list Z * N)) :=             (* None = hang; Some None = throw *)
+    match inp with
+    | [] => Some (Some (est, out, size))
+    | _ =>
+      match fuel with
+      | O => None
+      | S f =>
+        let size1 := gzc_ensure out size in
+        let r := ecall KGz est Z_NO_FLUSH inp (N.min kSizeMax (size1 - len out)) in
+        if run_ok KGz (c_rc r) then gzc_feed f (c_st r) (dropN (c_used r) inp) (out ++ c_out r) size1
+        else Some None
+      end
+    end.
+
+  (* for (; amount > kSizeMax; data += kSizeMax, amount -= kSizeMax) { feed kSizeMax bytes; EnsureOutput; }
+     [M] = GZip::kSizeMax; returns the codec, the input that is left, the output so far, to.size() *)
+  Fixpoint gzc_chunks (M : N) (chunks fuel : nat) (est : estate) (data out : list Z) (size : N)
+    : option (option (estate * list Z * list Z * N)) :=
+    if M <? len data then
+      match chunks with
+      | O => None
+      | S c =>
+        match gzc_feed fuel est (takeN M data) out size with
+        | Some (Some (est', out', size')) => gzc_chunks M c fuel est' (dropN M data) out' (gzc_ensure out' size')
+        | Some None => Some None
+        | None => None
+        end
+      end
+    else Some (Some (est, data, out, size)).
+
   Definition gz_compress (fuel : nat) (w : world) (from : list Z) : fileres :=
     let (est, _) := enew w KGz in
-    match gzc_pre fuel est from [] gzc_initial with
+    match gzc_chunks kSizeMax (length from) fuel est from [] gzc_initial with
     | None => FileErr true
     | Some None => FileErr false
-    | Some (Some (est1, inp1, out1, size1)) => gzc_finish fuel est1 inp1 out1 size1
+    | Some (Some (est0, inp0, out0, size0)) =>
+      match gzc_pre fuel est0 inp0 out0 size0 with
+      | None => FileErr true
+      | Some None => FileErr false
+      | Some (Some (est1, inp1, out1, size1)) => gzc_finish fuel est1 inp1 out1 size1
+      end
     end.
 End Writer.
 
